@@ -80,6 +80,7 @@ pub struct Run {
     /// model block number -> keys written by that commit (for schedules emitted by the model)
     pub written_by: HashMap<u64, Vec<String>>,
     pub last_doc: HashMap<usize, Map<String, Value>>,
+    pub doc_hist: HashMap<usize, Vec<Map<String, Value>>>,
 }
 
 fn rname(r: usize) -> String {
@@ -110,6 +111,7 @@ impl Run {
             last_export: HashMap::new(),
             written_by: HashMap::new(),
             last_doc: HashMap::new(),
+            doc_hist: HashMap::new(),
         };
         let list_seed = spec.get("list_seed").and_then(|v| v.as_u64());
         let backend = spec.get("backend").and_then(|v| v.as_str()).map(|s| s.to_string());
@@ -144,7 +146,13 @@ impl Run {
             Ok(v) => v,
             Err(e) => {
                 self.dead = true;
-                json!({"projpanic": tok(&panic_msg(e))})
+                // the block status (hook H2) is still worth having: the known-finding classifier needs it
+                let rep = self.reps[r].as_ref().unwrap();
+                let status = catch_unwind(AssertUnwindSafe(|| {
+                    crate::obs::status_map(rep).into_iter().map(|(k, v)| (tok(&k), Value::from(v))).collect::<Map<String, Value>>()
+                }))
+                .unwrap_or_default();
+                json!({"projpanic": tok(&panic_msg(e)), "status": status})
             }
         }
     }
@@ -300,9 +308,19 @@ impl Run {
                     op["doc"].as_object().cloned().unwrap_or_default()
                 } else if name == "resubmit" {
                     // the document this replica submitted last (e.g. redo of a discarded edit)
-                    match self.last_doc.get(&r) {
-                        Some(d) => d.clone(),
-                        None => return,
+                    let back = op.get("back").and_then(|v| v.as_u64()).unwrap_or(0) as usize;
+                    let hist = self.doc_hist.get(&r).cloned().unwrap_or_default();
+                    if back > 0 {
+                        // an older document of this replica (toggling between two documents before a commit)
+                        if hist.len() <= back {
+                            return;
+                        }
+                        hist[hist.len() - 1 - back].clone()
+                    } else {
+                        match self.last_doc.get(&r) {
+                            Some(d) => d.clone(),
+                            None => return,
+                        }
                     }
                 } else {
                     let mut p = Prng::new(op["seed"].as_u64().unwrap_or(0));
@@ -333,6 +351,7 @@ impl Run {
                 }
                 let newroot = doc.get("_id").and_then(|v| v.as_str()).map(|s| s.to_string());
                 self.last_doc.insert(r, doc.clone());
+                self.doc_hist.entry(r).or_default().push(doc.clone());
                 let sub = docproj_json(&project_doc(&doc));
                 let twice = op.get("twice").and_then(|v| v.as_bool()).unwrap_or(false);
                 let m = &self.reps[r].as_ref().unwrap().melda;
@@ -356,7 +375,11 @@ impl Run {
                     Some(Value::Null) => None,
                     _ => {
                         let mut p = Prng::new(op.get("seed").and_then(|v| v.as_u64()).unwrap_or(self.commits));
-                        Some(gen::gen_info(&mut p, self.gencfg, &rname(r), self.id * 1000 + self.commits))
+                        match p.below(16) {
+                            0 => Some(Map::new()),      // empty metadata object
+                            1 => None,                  // no metadata at all
+                            _ => Some(gen::gen_info(&mut p, self.gencfg, &rname(r), self.id * 1000 + self.commits)),
+                        }
                     }
                 };
                 let pre = self.items_of(r);
@@ -978,7 +1001,17 @@ pub fn random_spec(run: u64, seed: u64, profile: &str) -> Value {
                 }
                 json!({"op": "refresh", "r": r})
             }
-            83..=85 => json!({"op": "export_replay", "r": r}),
+            83..=84 => json!({"op": "export_replay", "r": r}),
+            85 => {
+                // toggle between two documents before the commit: several staged revisions with the same digest
+                ops.push(json!({"op": "edit", "r": r, "seed": p.next()}));
+                ops.push(json!({"op": "resubmit", "r": r, "back": 1}));
+                ops.push(json!({"op": "resubmit", "r": r, "back": 1}));
+                if p.chance(1, 2) {
+                    ops.push(json!({"op": "resubmit", "r": r, "back": 1}));
+                }
+                json!({"op": "export_replay", "r": r})
+            }
             86..=88 => json!({"op": "reload_until", "r": r, "hs": p.below(16)}),
             89..=90 => json!({"op": "reload", "r": r}),
             91 => json!({"op": "snapshot", "r": r}),
@@ -1323,6 +1356,40 @@ pub fn random_spec(run: u64, seed: u64, profile: &str) -> Value {
         ops.push(json!({"op": "sync", "r": 0, "s": 1}));
         return json!({"run": run, "replicas": 2, "pool": *p.pick(&[1usize, 2, 4, 16]), "ops": ops, "label": format!("random:{}:{}", profile, seed),
             "floats": false, "nasty": true, "universe": 6 + p.below(6), "list_seed": Value::Null});
+    }
+    if profile == "damage" && p.chance(1, 4) {
+        // a block that is examined (again) only after the pack it names was damaged: the child arrives before
+        // its parent and is held back, its pack is damaged, then the parent arrives
+        ops.clear();
+        let pre = p.below(2);
+        for k in 0..pre {
+            ops.push(json!({"op": "edit", "r": 1, "seed": p.next()}));
+            ops.push(json!({"op": "commit", "r": 1, "bn": 10 + k}));
+        }
+        ops.push(json!({"op": "edit", "r": 1, "seed": p.next()}));
+        ops.push(json!({"op": "commit", "r": 1, "bn": 1}));
+        ops.push(json!({"op": "edit", "r": 1, "seed": p.next()}));
+        ops.push(json!({"op": "commit", "r": 1, "bn": 2}));
+        for k in 0..pre {
+            ops.push(json!({"op": "copy_item", "r": 0, "kind": "pack", "bn": 10 + k, "s": 1}));
+            ops.push(json!({"op": "copy_item", "r": 0, "kind": "delta", "bn": 10 + k, "s": 1}));
+        }
+        ops.push(json!({"op": "copy_item", "r": 0, "kind": "pack", "bn": 2, "s": 1}));
+        ops.push(json!({"op": "copy_item", "r": 0, "kind": "delta", "bn": 2, "s": 1}));
+        if p.chance(1, 2) {
+            ops.push(json!({"op": "copy_item", "r": 0, "kind": "pack", "bn": 1, "s": 1}));
+        }
+        ops.push(json!({"op": "refresh", "r": 0}));
+        ops.push(json!({"op": "damage_item", "r": 0, "kind": "pack", "bn": 2, "how": if p.chance(1, 2) { "delete" } else { "flip" }}));
+        ops.push(json!({"op": "copy_item", "r": 0, "kind": "pack", "bn": 1, "s": 1}));
+        ops.push(json!({"op": "copy_item", "r": 0, "kind": "delta", "bn": 1, "s": 1}));
+        ops.push(json!({"op": "refresh", "r": 0}));
+        if p.chance(1, 2) {
+            ops.push(json!({"op": "reload", "r": 0}));
+        }
+        ops.push(json!({"op": "reopen", "r": 0}));
+        return json!({"run": run, "replicas": 2, "pool": *p.pick(&[1usize, 2, 4, 16]), "ops": ops, "label": format!("random:{}:{}", profile, seed),
+            "floats": false, "nasty": false, "universe": 6, "list_seed": Value::Null});
     }
     if profile == "damage" {
         ops.clear();
